@@ -76,7 +76,7 @@ for pid, c in CHECKS.items():
     })
 m = {
  "version": 1,
- "setup_cmd": "cd /verif/harness && CARGO_NET_OFFLINE=true cargo build --offline --profile checked && CARGO_NET_OFFLINE=true cargo build --offline --profile fast",
+ "setup_cmd": "cd /verif/harness && CARGO_NET_OFFLINE=true cargo build --offline --profile checked && CARGO_NET_OFFLINE=true cargo build --offline --profile fast && CARGO_NET_OFFLINE=true cargo build --offline --profile plain && CARGO_NET_OFFLINE=true cargo build --offline --manifest-path /repo/Cargo.toml --bin nederlang --target-dir /verif/work/cli-target",
  "hooks": {"guard": "cargo feature `verif` of the nederlang crate (off by default)",
            "enable": "the harness crate depends on nederlang = { path = \"/repo\", features = [\"verif\"] }; cargo rebuilds it from /repo's working tree on every ./check",
            "baseline_off_cmd": "cd /repo && cargo test --workspace --no-fail-fast --offline",
